@@ -15,5 +15,5 @@ for n in "${names[@]}"; do
   if [ $rc -eq 1 ] && echo "$out" | grep -q "^VIOLATION property=$id "; then echo "$n: DETECTED by $id [$keys]"; else echo "$n: MISSED by $id (exit $rc)"; miss=1; fi
 done
 # restore evidence of the unchanged tree
-for n in "${names[@]}"; do id=${n%%_*}; ./run.sh $id quick >/dev/null 2>&1 || echo "WARNING: $id fails on the unchanged tree"; done
+for id in $(printf "%s\n" "${names[@]}" | sed "s/_.*//" | sort -u); do ./run.sh $id quick >/dev/null 2>&1 || echo "WARNING: $id fails on the unchanged tree"; done
 exit $miss
